@@ -768,7 +768,7 @@ def spec_chain(events, r, Rs, exact_s, global_frames):
         else:
             c = np.cross(k0, k1)
             mag = np.linalg.norm(c)
-            if mag == 0:
+            if mag < 1e-8:          # the code's parallel test (after the repair of F-C17-2)
                 c = np.cross(k0, np.array([1.0, 0.0, 0.0]))
                 mag = np.linalg.norm(c)
             s = c / mag
